@@ -170,7 +170,7 @@ def u_verify(ctx, suite, meth):
     ctx.ex.run(body, name)
     ctx.assume("A-PAIRING: the product of pairing(Q_i, P_i, False) passes final_exponentiate(.) == 1 iff sum dl(Q_i) dl(P_i) = 0 (mod r), "
                "for valid subgroup points (bilinearity + non-degeneracy of the ate pairing; bounded monitor under C05)")
-    ctx.assume("contract of hash_to_G2: lands in the prime-order subgroup of G2 (C10 over A-ORDER)")
+    ctx.assume("contract of hash_to_G2: lands in the prime-order subgroup of G2 (C10; point counts forced by Hasse + computed facts, C17)")
 
 
 for _s in SUITES:
